@@ -9,7 +9,7 @@ import pmlib
 
 # which command kinds a model/implementation MISMATCH belongs to
 CMD_PROPS = {
-    "site": ["C20"], "term": ["C20"], "preset": ["C20", "C04"], "tpreset": ["C20"], "getsite": ["C20"], "copy": ["C20"],
+    "site": ["C20"], "term": ["C20"], "preset": ["C20", "C04"], "tpreset": ["C20"], "getsite": ["C20"], "copy": ["C20"], "fork": ["C20"], "unfork": ["C20"],
     "dumplattice": ["C20", "C04"], "tpc": ["C13"], "index": ["C18"], "getindex": ["C18"], "getinfo": ["C18"],
     "ham": ["C04"], "hshift": ["C04", "C03", "C09"], "symm": ["C07"], "states": ["C07"], "blockof": ["C07", "C17"], "innerof": ["C07", "C17"], "fockof": ["C07", "C17"],
     "hprepare": ["C04", "C03"],
@@ -34,7 +34,7 @@ def lab(s):
 # model generation
 # --------------------------------------------------------------------------
 
-LABELS = ["A", "B", "C", "a", "0", "S1", "zz", "Ab", "x_1", " q"]
+LABELS = ["A", "B", "C", "a", "0", "S1", "zz", "Ab", "x_1", " q", "S10", "S01", "A1"]
 
 
 STREAMS_NOTE = ("Generator streams shared by all model-based campaigns: amplitudes dyadic (exact degeneracies), decimal, and weak "
@@ -306,11 +306,17 @@ def custom_integrals(r, m):
         polys.append("2 %s 2 0 0 1 1 %s 2 0 1 1 0" % (val(1.0), val(1.0)))
     if not polys:
         polys.append("%d %s" % (M, " ".join("%s 2 0 %d 1 %d" % (val(1.0), i, i) for i in range(M))))
+    r.shuffle(polys)        # a rejected candidate may come BEFORE an accepted one
     return "symm custom %d %s" % (len(polys), " ".join(polys))
 
 
-def core_script(m, order=0, symm="default", dump=True, shift=None, early=False, stress=False):
+def core_script(m, order=0, symm="default", dump=True, shift=None, early=False, stress=False, forked=False):
     lines = list(m.build)
+    if forked:
+        # a copy of the finished lattice receives some of the terms once more (like terms) and is then put aside: the original
+        # must still define the model that was built
+        again = [l for l in m.build if l.split()[0] in ("term", "preset")]
+        lines += ["dumplattice", "fork"] + again[:3] + again[-1:] + ["unfork"]
     if stress:
         lines.insert(0, "stress")     # every prepare()/compute() twice, copies, re-evaluation (see harness/pipe.cpp)
     if dump:
@@ -366,8 +372,11 @@ def observables_script(r, m, beta, M, want=("gf", "chi", "susc", "vertex"), ngf=
     if "susc" in want and M >= 1:
         for _ in range(nsusc):
             a, b, c, d = (r.below(M) for _ in range(4))
-            if r.chance(1, 2):
-                b, d = a, c
+            k = r.below(4)
+            if k < 2:
+                b, d = a, c          # density-density (block preserving)
+            elif k == 2:
+                c, d = b, a          # B = A^+ (spin-flip / hopping pair: block changing, non-vanishing)
             lines.append("susc %d %d %d %d %s %s" % (a, b, c, d, longs([0, 1, -1, r.range(2, 7)]), doubles([0.0, beta * 0.3, beta])))
     if "vertex" in want and M >= 1:
         q = [r.below(M) for _ in range(4)]
@@ -545,7 +554,10 @@ def numeric_campaign(ctx, props, want, n_quick, n_thorough, max_modes_quick=4, m
             order = r.below(2)
             shift = r.choice(list(shifts)) if shifts and r.chance(1, 3) else None
             stress = r.chance(1, 3)
-            s = core_script(m, order=order, symm=symm_line, shift=shift, stress=stress, early=r.chance(1, 6))
+            forked = r.chance(1, 6)
+            if forked:
+                m.kinds.add("forked_lattice")
+            s = core_script(m, order=order, symm=symm_line, shift=shift, stress=stress, early=r.chance(1, 6), forked=forked)
             if stress:
                 m.kinds.add("stress_mode")
             if shift is not None:
@@ -563,7 +575,9 @@ def numeric_campaign(ctx, props, want, n_quick, n_thorough, max_modes_quick=4, m
             if trunc:
                 eps = r.choice([0.0, 1e-12, 1e-6, 1e-3, 1e-2, 0.2])
                 # re-evaluated after the truncation: observables of the CURRENT temperature only
-                obs6 = [l for l in main_obs if l.split()[0] in ("gf", "susc", "chi")][:6]
+                obs6 = []
+                for kind_, cnt in (("gf", 2), ("chi", 2), ("susc", 3)):
+                    obs6 += [l for l in main_obs if l.split()[0] == kind_][:cnt]
                 s.append("trunc %s" % hx(eps))
                 s += obs6
                 if r.chance(1, 2):
